@@ -216,7 +216,7 @@ def doc_pools(seed):
 
 # ------------------------------------------------------------------------------------------------ long values
 
-LONG_GROUPS = ["files-hyphen9", "files-other", "texts", "header", "weak-ws", "empty-values"]
+LONG_GROUPS = ["files-hyphen9", "files-other", "texts", "header", "weak-ws", "empty-values", "layer-markers"]
 WEAK_WS = [" ", "\t", " \t ", "  ", "\t\t"]
 LONG_GROUPS_THOROUGH = ["files-hyphen9-more", "files-two-hyphens", "files-slash-star", "files-under-long-headers"]
 _REALISTIC = ["debian/*", "doc/*.html", "src/lib-core/*.c", "src/lib-core/*.h", "tests/data-files/*",
@@ -366,6 +366,17 @@ def long_cases(seed, group):
         for p in text_paras:
             for paras in contexts(p):
                 cases.append({"part": "doc", "header": minimal, "paras": paras})
+    elif group == "layer-markers":
+        # text lines that are markers of another layer of the format: armor lines, field lines, comment lines
+        marks = ["-----BEGIN PGP SIGNATURE-----", "-----BEGIN PGP SIGNED MESSAGE-----", "-----END PGP SIGNATURE-----",
+                 "Files: *", "License: GPL-2", "#comment", "Format: x", "Hash: SHA512"]
+        for m in marks:
+            t = "first line\n" + m + "\nlast line"
+            for p in (["F", ["*"], "2020 A", ["X", t]], ["F", ["*"], "2020 A\n " + m, ["X", "t"]], ["L", ["Y", t]],
+                      ["F", ["*"], "2020 A", ["X", m]]):
+                for paras in ([p, after], [before, p, after]):
+                    cases.append({"part": "doc", "header": minimal, "paras": paras})
+            cases.append({"part": "doc", "header": dict(minimal, license=["H", t]), "paras": [before, after]})
     elif group == "empty-values":
         # fields that are present but empty: no copyright text, a licence with neither synopsis nor text
         for p in (["F", ["*"], "", ["MIT", "text"]], ["F", ["*"], "2020 A", ["", ""]], ["F", ["*"], "", ["", ""]],
